@@ -287,6 +287,10 @@ Definition pm_op (s o : pomd) (op_ : op) : res (pomd * out) :=
   | New a kw => do s1 <- pm_new s o a kw; Ok (s1, none_out)
   | FromKeys ks d => Ok (pm_from_pairs (map (fun k => (k, dflt d)) ks), none_out)
   | CopyOther _ => let c := pm_from_pairs (pm_items o) in Ok (c, OBool (pm_eq_omd c o))
+  | CopyCyc c dst =>      (* the copy machinery rebuilds the object from its pair list; deep kinds copy the
+                             values with a memo, so references to the source become references to the copy *)
+      let deep := match c with CkDeepCopy | CkPickle => true | _ => false end in
+      Ok (pm_from_pairs (map (fun p => (fst p, remap_ref deep dst (snd p))) (pm_items o)), OBool true)
   | Items multi => if multi then Ok (s, OPairs (pm_items s))
                    else do l <- pm_items1 s; Ok (s, OPairs l)
   | Keys multi => Ok (s, OList (if multi then map c_key (p_cells s) else pm_iterkeys s))
